@@ -156,9 +156,15 @@ func runCopies() {
 			}
 			return renderIntMap(im)
 		}
-		base := render(veproduct.GetStringMap())
+		// the result of the very FIRST call of the process is mutated too (step 0): a lazily
+		// built cache that is handed out by the call that builds it would otherwise go unnoticed
+		first := veproduct.GetStringMap()
+		base := render(first)
 		for step := 0; step < 8; step++ {
 			x, x2 := veproduct.GetStringMap(), veproduct.GetStringMap()
+			if step == 0 {
+				x = first
+			}
 			mut := ""
 			switch step % 4 {
 			case 0:
@@ -200,9 +206,13 @@ func runCopies() {
 		imfs = append(imfs, imf{f.Name, f.F.IntToStringMap})
 	}
 	for _, l := range imfs {
-		base := renderIntMap(l.f())
+		first := l.f()
+		base := renderIntMap(first)
 		for step := 0; step < 8; step++ {
 			x, x2 := l.f(), l.f()
+			if step == 0 {
+				x = first
+			}
 			mut := mutateIntMap(x, step)
 			c.expect(l.name+".IntToStringMap", mut+"(other copy)", renderIntMap(x2), base)
 			c.expect(l.name+".IntToStringMap", mut, renderIntMap(l.f()), base)
@@ -283,15 +293,20 @@ func runCopies() {
 		veproduct.SmartSolarMPPT100_30, veproduct.SmartSolarMPPT75_15, veproduct.BlueSolarMPPT75_10, veproduct.SmartSolarMPPT250_100,
 		veproduct.PhoenixInverter12V250VA230V, veproduct.PhoenixInverterSmart24V5000VA230Vac64k}
 	bases := map[veproduct.Product]string{}
+	firsts := map[veproduct.Product]veregister.RegisterList{}
 	for _, p := range prods {
 		rl, _ := veregister.GetRegisterListByProduct(p)
 		bases[p] = renderRegList(rl)
+		firsts[p] = rl
 	}
 	for round := 0; round < 2; round++ {
 		for step := 0; step < 8; step++ {
 			for _, p := range prods {
 				x, _ := veregister.GetRegisterListByProduct(p)
 				x2, _ := veregister.GetRegisterListByProduct(p)
+				if round == 0 && step == 0 {
+					x = firsts[p] // the first list ever handed out for this product
+				}
 				mut := mutateRegList(&x, step)
 				c.expect(fmt.Sprintf("GetRegisterListByProduct(%#x)", uint16(p)), mut+"(other copy)", renderRegList(x2), bases[p])
 				for _, q := range prods { // every product, also others of the same class
